@@ -84,8 +84,9 @@ def run(ck):
         names = sorted({e.base_callee().rsplit("::", 1)[1] for e in muts})
         # a store through an iterator / reference into the collection replaces what the first occurrence put there
         names += sorted({how for fld_, how, _e in lib.direct_writes(fn) if how.startswith("alias-assign") and strip_tmpl(fld_) == HH + "Collection::" + fld})
-        ck.ob("C16-R2", "Collection::%s/keeps-first" % name, names == ["insert"], fn.loc, fn,
-              "stores with %s" % names if names == ["insert"] else "stores with %s: a later header with the same name replaces the first one" % names)
+        keep = bool(names) and all(n_ in ("insert", "emplace", "try_emplace", "emplace_hint") for n_ in names)
+        ck.ob("C16-R2", "Collection::%s/keeps-first" % name, keep, fn.loc, fn,
+              "stores with %s" % names if keep else "stores with %s: a later header with the same name replaces the first one" % names)
     hs = lib.single(prog, H + "Private::HeadersStep::apply")
     ar = [e for e in hs.calls(lambda e: (e.get("callee") or "") == HH + "Collection::addRaw")]
     ck.require(ar, "addRaw not found in HeadersStep::apply")
